@@ -147,9 +147,9 @@ PROPS = {
 
 ANTE_RULE = 'random transaction shapes (Ethereum-lane base tx with 0-2 of 20 perturbations: memo, timeout, fee amount/denoms, gas limit, extension options of three kinds, non-critical options, signatures, signer infos, payer, granter, unprotected, contract sender, low gas, tip>cap, huge gas limit, creation; Cosmos-lane txs with 1-3 message trees of exec depth 0-5 over send/grant/vesting/eth leaves, signed) x 4 modes through the real Simulate / CheckTx(recheck, new) / FinalizeBlock; non-trivial = every line; distinct by op-line hash'
 PROPS['C07'] = dict(
-    lean_modules=['Model.Ante', 'Properties.C07', 'Facts.Ante', 'Facts.TieAnte', 'Facts.TieAnteChain', 'Facts.TieAnteBasic', 'Facts.TieAnteEvm', 'Facts.TieMeta'],
+    lean_modules=['Model.Ante', 'Properties.C07', 'Facts.Ante', 'Facts.TieAnte', 'Facts.TieAnteChain', 'Facts.TieAnteBasic', 'Facts.TieAnteEvm', 'Facts.TieAnteLane', 'Facts.TieMeta'],
     facts=['*'],
-    theorems=['tie_has_single_eth', 'tie_is_ethereum_tx', 'tie_validate_eoa', 'tie_setup_exec', 'tie_emit_event', 'tie_ext_opt', 'tie_timeout_height', 'tie_memo', 'tie_reject_eth_msgs', 'tie_reject_eth_msgs_model', 'tie_vesting_gate', 'tie_vesting_gate_model',
+    theorems=['tie_eth_lane_shape', 'verdict03_refusal_not_reached', 'tie_has_single_eth', 'tie_is_ethereum_tx', 'tie_validate_eoa', 'tie_setup_exec', 'tie_emit_event', 'tie_ext_opt', 'tie_timeout_height', 'tie_memo', 'tie_reject_eth_msgs', 'tie_reject_eth_msgs_model', 'tie_vesting_gate', 'tie_vesting_gate_model',
               'tie_validate_basic', 'tie_validate_basic_shape', 'tie_validate_basic_recheck', 'tie_validate_basic_mixed', 'coinsEqual_newCoins1', 'fact_translated_all', 'fact_uninterpreted', 'C07_eth_lane', 'C07_recheck', 'C07_cosmos_lane', 'C07_exclusive', 'C07_handler_unreachable', 'C16_gate',
               'checkMsgs_sound', 'checkTail_sound', 'checkMsg_sound', 'ethLane_none', 'cosmosLane_none', 'vestingGate_sound',
               'fact_ante_chain', 'fact_disabled_list', 'fact_nested_cap'],
